@@ -865,6 +865,10 @@ public:
 	}
 	bool compact()
 	{
+		/* items may be shared with copy of array */
+		if (!this->detach()) {
+			return false;
+		}
 		item<T> *space = 0;
 		long len = 0;
 		for (item<T> *pos = this->begin(), *to = this->end(); pos != to; ++pos) {
@@ -1002,15 +1006,19 @@ public:
 	}
 	bool set(long pos, T *ref)
 	{
-		reference<T> *ptr = unique_array<reference<T> >::get(pos);
-		if (!ptr) {
+		/* references may be shared with copy of array */
+		if (!unique_array<reference<T> >::get(pos) || !this->detach()) {
 			return false;
 		}
-		ptr->set_instance(ref);
+		unique_array<reference<T> >::get(pos)->set_instance(ref);
 		return true;
 	}
-	long clear(const T *ref = 0) const
+	long clear(const T *ref = 0)
 	{
+		/* references may be shared with copy of array */
+		if (!this->detach()) {
+			return 0;
+		}
 		reference<T> *ptr = this->begin();
 		long elem = 0;
 		
@@ -1034,6 +1042,10 @@ public:
 	}
 	void compact()
 	{
+		/* references may be shared with copy of array */
+		if (!this->detach()) {
+			return;
+		}
 		::mpt::compact(span<void *>(reinterpret_cast<void **>(this->begin()), this->length()));
 	}
 protected:
